@@ -12,7 +12,7 @@ Full == IF "MC_FULL" \in DOMAIN IOEnv THEN IOEnv.MC_FULL = "1" ELSE FALSE
 
 Lays == {[ivtOff |-> 0, ils |-> 1024], [ivtOff |-> 4096, ils |-> 8192], [ivtOff |-> 1024, ils |-> 4096], [ivtOff |-> 0, ils |-> 8192]}
 \* application sizes: (ils + appLen) mod 4096 around the 4 KiB boundary, and the 16-byte boundary
-Residues == IF Full THEN {4079, 4080, 4081, 4095, 0, 1, 15, 16, 17, 2048} ELSE {4080, 0, 1}
+Residues == IF Full THEN {4079, 4080, 4081, 4095, 0, 1, 15, 16, 17, 2048} ELSE {4080, 0}
 AppLens == {4096 + r : r \in Residues} \cup (IF Full THEN {r : r \in Residues \ {0, 1, 15, 16, 17}} ELSE {})
 Start == <<8192, 7168>>                              \* 0x20001C00
 
@@ -27,7 +27,7 @@ CfgLen(sh) == CASE sh.cfgKind = "none" -> 0 [] sh.cfgKind = "dcd" -> 44 [] OTHER
 Inp(sh) == [start |-> Start, ivtOff |-> sh.lay.ivtOff, ils |-> sh.lay.ils, appLen |-> sh.appLen, flags |-> sh.flags,
             cfgKind |-> sh.cfgKind, cfgLen |-> CfgLen(sh), entry |-> AddTo(Start, sh.lay.ils + 257), ver |-> 66,
             nSrk |-> 4, srcIdx |-> 1, fast |-> sh.fast, imgTgt |-> sh.imgTgt, vfyIdx |-> IF sh.fast THEN 0 ELSE sh.imgTgt,
-            macLen |-> 16, dekLen |-> 32]
+            macLen |-> 16, dekLen |-> 32, waive |-> << >>]
 
 Tampers == {"none", "pad", "ivt", "bd", "cfg", "app", "csfcmds", "srktable", "csfkcert", "csfsig", "imgkcert", "datasig", "mac"}
 Mutants == {"none", "noCfgBlock", "noIvtOffInBlocks", "dataBeforeCsfAuth", "noCsfk", "imgkBySlot1", "shortBootLen",
